@@ -66,8 +66,77 @@ def fail_count_shape(P, f, local):
     return srcdesc, pred
 
 
+def all_files_loaded(P, res, rule="ALL-FILES-LOADED"):
+    """every file named on the command line reaches run_tests_in_files: the loop in main that reads them appends exactly one
+    entry per path on every path of its body (methods and types are registered globally, so a test selected with -n can
+    depend on a file that contains no selected test; skipping such a file makes the verdict depend on the selection)."""
+    mains = [p for p in P.funcs if p in ("main", "main::main")]
+    if not mains:
+        raise M.MissingAnchor("main")
+    m = P.funcs[mains[0]]
+    calls = [(bi, t) for bi, t in m.calls() if M.callee_name(t) == "test_runner::run_tests_in_files"]
+    if len(calls) != 1:
+        raise M.MissingAnchor("main: exactly one call of run_tests_in_files (found %d)" % len(calls))
+    cb, ct = calls[0]
+    def base_local(op):
+        r_ = m.root_of(op)
+        for _ in range(4):
+            if r_[0] == "call" and (M.callee_name(r_[2]) or "").endswith(("::deref", "::as_slice", "::as_ref", "::borrow")) and r_[2]["args"]:
+                r_ = m.root_of(r_[2]["args"][0])
+        return r_[1]["l"] if r_[0] == "place" else None
+    vec = base_local(ct["args"][0])
+    pushes = []
+    for bi, t in m.calls():
+        if (M.callee_name(t) or "").endswith("Vec::<T, A>::push") and t["args"]:
+            if vec is not None and base_local(t["args"][0]) == vec:
+                pushes.append(bi)
+    collects = [bi for bi, t in m.calls() if (M.callee_name(t) or "").endswith("Iterator::collect") and t["dest"]["l"] == vec]
+    if collects and not pushes:
+        names = set()
+        r2 = m.root_of(m.blocks[collects[0]]["term"]["args"][0], through_named=True)
+        for _ in range(8):
+            if r2[0] != "call":
+                break
+            names.add((M.callee_name(r2[2]) or "").split("::")[-1])
+            if not r2[2]["args"]:
+                break
+            r2 = m.root_of(r2[2]["args"][0], through_named=True)
+        dropping = sorted(names & {"filter", "filter_map", "skip", "take", "skip_while", "take_while", "step_by", "flat_map"})
+        if dropping:
+            res.bad(rule, "main # test files # " + ",".join(dropping), "the files handed to run_tests_in_files pass through %s: a listed file can be left out" % ",".join(dropping), m.loc(ct.get("span")))
+        else:
+            res.ok(rule, "main: the listed files are mapped one to one into the vector given to run_tests_in_files")
+        return
+    res.floor(rule, "pushes to the vector handed to run_tests_in_files", len(pushes), 1)
+    loops = {}
+    for h, a, body in D.natural_loops(m):
+        loops.setdefault(h, set()).update(body)
+    done = False
+    for h, body in sorted(loops.items()):
+        mine = [b for b in pushes if b in body]
+        if not mine:
+            continue
+        starts = []
+        for b in body:
+            t = m.blocks[b]["term"]
+            if t["t"] == "switch" and any(x not in body for x in m.succ[b]) and m.dominates(b, mine[0]):
+                starts += [x for x in m.succ[b] if x in body]
+        rng = D.path_event_range(m, starts[0], [h], mine) if starts else None
+        done = True
+        if rng == (1, 1):
+            res.ok(rule, "main: exactly one (source, path) entry per listed file on every path of the reading loop")
+        else:
+            res.bad(rule, "main # test files # entries per file %s" % (rng,),
+                    "the loop that reads the files named on the command line does not hand every one of them to run_tests_in_files (%s entries per file): "
+                    "a file that is skipped is never loaded, so a test that uses a method or type it defines passes in the full run and fails when selected" % (rng,),
+                    m.loc(m.blocks[mine[0]]["term"].get("span")))
+    if not done:
+        res.bad(rule, "main # test files # no-loop", "cannot find the loop that collects the files for run_tests_in_files", m.loc(ct.get("span")))
+
+
 def run(ctx, res):
     P = ctx.P
+    all_files_loaded(P, res)
     f = P.require_fn("test_runner::run_tests_in_files")
     # ---- EXIT-GUARD -----------------------------------------------------------------
     exits = [(bi, t) for bi, t in f.calls() if M.callee_name(t) == "std::process::exit"]
